@@ -94,7 +94,7 @@ def hook_balance(ctx, rep, rule):
     hits, n = [], 0
     for tr in ex.transitions:
         n += 1
-        if tr.dst == 'CRASHED':
+        if tr.dst in ('CRASHED', 'ABORTED'):
             continue
         for e in tr.events:
             if e[0] == 'hook' and e[1] in ('testSetUp', 'testTearDown'):
@@ -140,6 +140,27 @@ def streams_restored(ctx, rep, rule):
             'stopTest', n, floor=20)
 
 
+def streams_when_hook_raises(ctx, rep, rule):
+    """a layer's testSetUp / testTearDown is user code and may raise; the exception leaves the
+    callback and the run (unittest and the post-mortem loop call startTest outside their try, and
+    stopTest IS their finally): at that moment the std streams must be the originals"""
+    ex = exploration(ctx)
+    hits, n = [], 0
+    for tr in ex.transitions:
+        if tr.dst != 'ABORTED':
+            continue
+        n += 1
+        for chan in ('sys.stdout', 'sys.stderr'):
+            if not _orig(tr.post, chan):
+                v = tr.post.get(chan)
+                hits.append(('%s: %s is %s when a layer hook raises' % (
+                    tr.method, chan, v[1] if v and v[0] == 'obj' else v), tr,
+                    '%s inside %s: the exception ends the run while %s is still replaced; nothing '
+                    'restores it afterwards' % (tr.ctrl[2], tr.method, chan)))
+    _report(ctx, rep, rule, hits, 'whenever a per-test layer hook is called (it may raise and end the '
+            'run) sys.stdout/sys.stderr are the original objects', n, floor=20)
+
+
 def buffered_while_running(ctx, rep, rule):
     """--buffer: as long as a test is running and no outcome was reported for it, both std
     streams are the capture buffers (otherwise what a passing test prints reaches the output)"""
@@ -182,7 +203,7 @@ def attribution(ctx, rep, rule):
     ex = exploration(ctx)
     hits, n = [], 0
     for tr in ex.transitions:
-        if not tr.config.get('buffer') or tr.dst == 'CRASHED':
+        if not tr.config.get('buffer') or tr.dst in ('CRASHED', 'ABORTED'):
             continue
         n += 1
         was_buf = {c: _buffered(tr.pre, c) for c in ('sys.stdout', 'sys.stderr')}
@@ -250,7 +271,7 @@ def stop_on_bad_outcome(ctx, rep, rule):
     methods = set()
     for tr in ex.transitions:
         if not tr.config.get('stop_on_error') or tr.config.get('post_mortem') or \
-                tr.dst == 'CRASHED':
+                tr.dst in ('CRASHED', 'ABORTED'):
             continue
         bad = [e for e in tr.events if e[0] == 'fmt' and e[1] & BAD_REPORTS]
         if not bad:
@@ -271,7 +292,7 @@ def no_stop_without_flag(ctx, rep, rule):
     ex = exploration(ctx)
     hits, n = [], 0
     for tr in ex.transitions:
-        if tr.config.get('stop_on_error') or tr.dst == 'CRASHED':
+        if tr.config.get('stop_on_error') or tr.dst in ('CRASHED', 'ABORTED'):
             continue
         n += 1
         if tr.post.get('stop') and not tr.pre.get('stop'):
@@ -285,7 +306,7 @@ def snapshot_rules(ctx, rep, rule):
     hits, n, reads = [], 0, 0
     want = 'zope.testrunner.threadsupport.enumerate'
     for tr in ex.transitions:
-        if tr.event != 'stopTest' or tr.dst == 'CRASHED':
+        if tr.event != 'stopTest' or tr.dst in ('CRASHED', 'ABORTED'):
             continue
         n += 1
         iters = [e[1] for e in tr.events if e[0] == 'enum-iter']
@@ -400,3 +421,111 @@ def driver_brackets(ctx, rep, R):
               'the post-mortem loop fires %s; the V-debug protocol table models addSkip / addError / '
               'addSuccess only' % used, key='driver:events', func=fi.qualname,
               where=ctx.where(fi, fi.node))
+
+
+def _driver_restores(ctx):
+    """{'normal'|'debug': (bool, why)}: does the loop of runner.run_tests that runs the tests put the
+    test object's attribute dictionary back itself (copy before the test runs; clear + update with
+    that copy on every normal path to the next test)?"""
+    import ast
+    from .common import is_name, norm, reaching_defs
+    fi = ctx.model.func('runner.run_tests')
+    g = ctx.cfg(fi)
+    out = {}
+    for lp in ast.walk(fi.node):
+        if not (isinstance(lp, ast.For) and isinstance(lp.target, ast.Name)):
+            continue
+        v = lp.target.id
+        run = kind = None
+        for nd in g.nodes:
+            if nd.kind != 'stmt' or not any(x is nd.ast for x in ast.walk(lp)):
+                continue
+            for c in ast.walk(nd.ast):
+                if isinstance(c, ast.Call) and is_name(c.func, v) and c.args:
+                    run, kind = nd, 'normal'
+                elif isinstance(c, ast.Call) and isinstance(c.func, ast.Attribute) and \
+                        c.func.attr == 'debug' and is_name(c.func.value, v):
+                    run, kind = nd, 'debug'
+        if run is None:
+            continue
+        head = [n for n in g.nodes if n.kind == 'for' and n.stmt is lp]
+        if not head:
+            continue
+        head = head[0]
+
+        def dmeth(nd, m):
+            for c in ast.walk(nd.ast):
+                if isinstance(c, ast.Call) and isinstance(c.func, ast.Attribute) and c.func.attr == m \
+                        and norm(c.func.value) == v + '.__dict__':
+                    return c
+            return None
+        members = [nd for nd in g.nodes if nd.kind == 'stmt' and any(x is nd.ast for x in ast.walk(lp))]
+        clears = {nd.id for nd in members if dmeth(nd, 'clear')}
+        after_run = g.reach([d for d, k in g.succ[run.id] if k != 'exc'], avoid={head.id},
+                            include_start=True, edge_ok=lambda s_, d_, k_: k_ != 'exc')
+        updates = set()
+        for nd in members:
+            c = dmeth(nd, 'update')
+            if c is None or len(c.args) != 1 or not isinstance(c.args[0], ast.Name):
+                continue
+            ds = reaching_defs(g, nd.id, c.args[0].id)
+            good = bool(ds) and all(isinstance(d, ast.Call) and isinstance(d.func, ast.Attribute) and
+                                    d.func.attr == 'copy' and norm(d.func.value) == v + '.__dict__'
+                                    for d in ds)
+            # the copy is taken before the test runs (not reachable from the run statement within
+            # the same iteration)
+            for d in ds if good else []:
+                for cn in members:
+                    if any(x is d for x in ast.walk(cn.ast)) and cn.id in after_run:
+                        good = False
+            if good:
+                updates.add(nd.id)
+        starts = [d for d, k in g.succ[run.id] if k != 'exc']
+        ok = bool(updates) and bool(clears)
+        why = 'no %s.__dict__.clear() / update(<copy taken before the test>) in the loop' % v
+        if ok:
+            ok, w = g.every_path_passes(starts, [head.id, g.exit], updates, include_start=True,
+                                        edge_ok=lambda s_, d_, k_: k_ != 'exc' and
+                                        not (g.node(s_).kind == 'test' and 'shouldStop' in norm(g.node(s_).ast)))
+            why = 'a normal path from the test to the next one misses the update' if not ok else ''
+            if ok:
+                ok, w = g.every_path_passes(starts, list(updates), clears, include_start=True,
+                                            edge_ok=lambda s_, d_, k_: k_ != 'exc')
+                why = 'the dictionary is not cleared before it is refilled' if not ok else ''
+        out[kind] = (bool(ok), why)
+    return out
+
+
+def test_state_restored(ctx, rep, rule):
+    """After every test the attribute dictionary of the test object is what it was when the test
+    was handed over -- otherwise the same object cannot be run again (--repeat) and garbage of the
+    test stays referenced.  TestResult.stopTest clears and refills it from the copy startTest took;
+    where stopTest works on a dictionary that is the live object itself (no copy was taken) the
+    refill restores nothing, and the loop of runner.run_tests that drives the tests has to put the
+    dictionary back itself.  A word is only bad when neither does."""
+    ex = exploration(ctx)
+    drv = _driver_restores(ctx)
+    hits, n, lost_words = [], 0, 0
+    for tr in ex.transitions:
+        if tr.dst not in ('IDLE', 'STOPPED') or tr.event != 'stopTest' or tr.src == 'END':
+            continue
+        n += 1
+        c = tr.post.get('tdict:test', 'S0')
+        if c == 'S0':
+            continue
+        lost_words += 1
+        kind = 'debug' if tr.variant == 'V-debug' else 'normal'
+        if drv.get(kind, (False, 'no loop running the tests found'))[0]:
+            continue
+        hits.append(('test.__dict__ is %s after stopTest and the %s loop of run_tests does not put it '
+                     'back' % (c, kind), tr,
+                     'after this test the attributes of the test object are %s (stopTest refills the '
+                     'dictionary from %s) and run_tests does not restore them either (%s): the next '
+                     '--repeat iteration runs a test object without its attributes'
+                     % (c, 'the dictionary itself' if c == 'empty' else 'something that is not the '
+                        'copy taken at the start', drv.get(kind, (0, 'no loop found'))[1])))
+    rep.units.setdefault('test_state', {})[rule] = {
+        'stopTest transitions': n, 'words where TestResult alone loses the state': lost_words,
+        'run_tests restores': {k: v[0] for k, v in drv.items()}}
+    _report(ctx, rep, rule, hits, 'after every test the test object has the attributes it started with '
+            '(restored by stopTest or by the loop of run_tests)', n, floor=20)
